@@ -41,6 +41,9 @@ def systematic():
                     metas = [EM("sall", "kebab-case")] if n % 2 else []
                     if n % 3 == 0:
                         metas.append(EM("aci"))
+                    if n % 4 == 1:
+                        # a custom parse error next to a default variant: the default variant still catches everything
+                        metas += [EM("pety", "PErr"), EM("pefn", "perr_a" if n % 8 == 1 else "perr::b")]
                     items.append(("default", Item("E", vs, metas=metas)))
     # default variant WITH to_string: Display prints the literal, not the inner value
     items.append(("default-tos", Item("E", [clone_v(ORD[0]), Variant("Other", "tuple", [Field("String")], [DEFAULT, tos("other!")])])))
@@ -73,7 +76,7 @@ def build_corpus(tier, rng):
     thorough = tier == "thorough"
     cands = systematic()
     for _ in range(300 if thorough else 40):
-        it = G.string_enum(rng, nvariants=rng.randint(2, 7), custom_err=False)
+        it = G.string_enum(rng, nvariants=rng.randint(2, 7))
         if not any(v.has("default") for v in it.variants):
             v = it.variants[rng.randrange(len(it.variants))]
             v.kind, v.fields = "tuple", [Field(rng.choice(["String", "Box<str>", "Wrap"]))]
